@@ -302,6 +302,10 @@ def _list(lib, run, recv, args, kw):
             # list(set(indices)): the same members, each once, in an order that is a function of the set (A6)
             from .specfns import idedup
             return SeqV('I', idedup(sv.term), True)
+    if isinstance(v, Lazy) and v.kind == 'range':
+        # list(range(lo, hi)): the same value as the comprehension [x for x in range(lo, hi)]
+        from .loops import domain_of, summarise
+        return summarise(run, domain_of(run, v), lambda elem: elem, where='list(range)', collect=True)
     raise Unsupported('list(%r)' % (v,))
 
 
@@ -356,6 +360,8 @@ def _deepcopy(lib, run, recv, args, kw):
 def _fromkeys(lib, run, recv, args, kw):
     keys = args[0]
     val = args[1] if len(args) > 1 else NONE
+    if isinstance(keys, TupleV) and keys.items and all(isinstance(k, StrV) for k in keys.items):
+        return RecordV({k.s: val for k in keys.items})      # constant string keys: the record literal
     s = lib.as_seq(run, keys)
     if s is None:
         m = _map(run, keys)
